@@ -671,7 +671,7 @@ func runBlob(s *kernel.Sim, p params) {
 }
 
 // recordTranscripts runs one honest cleartext handshake and returns the frames each side sent.
-func recordTranscripts(s *kernel.Sim, method security.AuthMethod) (cf, sf []refcodec.Frame) {
+func recordTranscripts(s *kernel.Sim, method security.AuthMethod, sw *hs.SSLWorld) (cf, sf []refcodec.Frame) {
 	t := s.T
 	ctx := context.Background()
 	net0 := simnet.New(s, simnet.Config{})
@@ -683,6 +683,10 @@ func recordTranscripts(s *kernel.Sim, method security.AuthMethod) (cf, sf []refc
 	ccfg.Token = tw.Token(hs.Now()-10, hs.Now()+3600)
 	scfg := hs.Cfg(security.SecurityRequired, security.SecurityOptional, []security.AuthMethod{method}, []security.CryptoMethod{security.CryptoBlowfish}, security.NoCommand)
 	tw.ServerToken(scfg)
+	if sw != nil {
+		sw.Client(ccfg)
+		sw.Server(scfg)
+	}
 	s.Go("rec-client", func() {
 		_, err := security.NewAuthenticator(ccfg, pr.CS).ClientHandshake(ctx)
 		s.Note("recording: client handshake ended with %v", err)
@@ -713,9 +717,18 @@ func runHandshake(s *kernel.Sim, p params) {
 		// is after the client's first TLS message
 		method = security.AuthSSL
 	}
-	cf, sf := recordTranscripts(s, method)
+	var sw *hs.SSLWorld
+	if method == security.AuthSSL {
+		var err error
+		if sw, err = hs.NewSSLWorld(); err != nil {
+			s.Violate("harness", "ssl-world", err.Error())
+			return
+		}
+		defer sw.Close()
+	}
+	cf, sf := recordTranscripts(s, method, sw)
 	serverUnderTest := strings.HasPrefix(p.Entry, "handshake-server")
-	if method == security.AuthSSL && !serverUnderTest && len(sf) >= 3 {
+	if method == security.AuthSSL && !serverUnderTest && len(sf) == 3 {
 		// what a server would send next: one tunnelled TLS message (status, length, bytes)
 		tlsmsg := make([]byte, 16, 64)
 		tlsmsg[7], tlsmsg[15] = 2, 40
@@ -748,6 +761,9 @@ func runHandshake(s *kernel.Sim, p params) {
 		if serverUnderTest {
 			scfg := hs.Cfg(security.SecurityRequired, security.SecurityOptional, []security.AuthMethod{method}, []security.CryptoMethod{security.CryptoBlowfish}, security.NoCommand)
 			tw.ServerToken(scfg)
+			if sw != nil {
+				sw.Server(scfg)
+			}
 			_, err := security.NewAuthenticator(scfg, st).ServerHandshake(ctx)
 			s.Note("server under test: %v", err)
 			return err
@@ -756,6 +772,9 @@ func runHandshake(s *kernel.Sim, p params) {
 		ccfg.SessionCache = security.NewSessionCache()
 		ccfg.TrustDomain = tw.Issuer
 		ccfg.Token = tw.Token(hs.Now()-10, hs.Now()+3600)
+		if sw != nil {
+			sw.Client(ccfg)
+		}
 		_, err := security.NewAuthenticator(ccfg, st).ClientHandshake(ctx)
 		s.Note("client under test: %v", err)
 		return err
@@ -958,7 +977,11 @@ func gen(g *scen.Gen) {
 	}
 	// handshake entry points fed with a mutated recording of the peer
 	for _, ent := range []string{"handshake-server-claimtobe", "handshake-server-token", "handshake-client-claimtobe", "handshake-client-token", "handshake-server-ssl", "handshake-client-ssl"} {
-		for fr := 0; fr < 6; fr++ {
+		nfr := 6
+		if strings.HasSuffix(ent, "ssl") {
+			nfr = 12 // the tunnelled TLS flights, the completion confirmations and the session key
+		}
+		for fr := 0; fr < nfr; fr++ {
 			if !emit(params{Entry: ent, Mut: "none", Frame: fr}) {
 				return
 			}
